@@ -11,4 +11,22 @@ META = {
   "note": "Trusted: Lean kernel; hand-written model + differential harness (generator quality bounds what K sees); xxh3 collision-freeness on compared blocks (NoCollision); File::read full-buffer behaviour; zstd round trip.",
   "technique": "Lean 4 theorem (induction over the generator loops) + differential correspondence model vs. implementation",
  },
+ "C07": {
+  "text": "Proved in Lean for all trees, thresholds and tie outcomes of the floating-point comparison: strictly above the threshold (without --force-delete) the run is refused before any task runs, the destination is returned unchanged, no event is produced and the exit status is non-zero; the guard never refuses below the threshold; an empty source cannot wipe a destination for any threshold < 100 (default regenerated from cli.rs). The model is tied to the real binary by generated trees placed exactly at, one below and one above the threshold for thresholds 0..100 (exit status + byte-identical snapshot) and by general engine cases.",
+  "design_ref": "DESIGN.md §6 C07",
+  "note": "Trusted: Lean kernel; model + engine stream; f64 monotonicity in range (validated on the boundary cases, tie made explicit); destination count from a successful scan.",
+  "technique": "Lean 4 theorem over the engine model + differential correspondence with the real binary at threshold boundaries",
+ },
+ "C08": {
+  "text": "Proved in Lean for every flag set and every pair of trees: with --dry-run the run returns the destination unchanged and no task fails; planning and the deletion guard do not depend on the flag; the reported actions (and counters) of the dry run equal those of the real run whenever no task of the real run fails. Tied to the code by twin runs of the real binary (dry, then real, on identical trees) incl. --delete, --checksum-db, --use-cache, --clear-*, --resume: full snapshots of source, destination (with sy's own files) and a private HOME/XDG tree must be unchanged by the dry run, event multisets must agree. Partial: bisync dry-run is covered by the C11/C12 machinery and a snapshot oracle, not by this model.",
+  "design_ref": "DESIGN.md §6 C08",
+  "note": "Trusted: Lean kernel; model + twin-run stream; main.rs glue (state files) covered by the oracle only.",
+  "technique": "Lean 4 theorem (fold invariant over tasks) + twin-run differential correspondence",
+ },
+ "C19": {
+  "text": "Proved in Lean for every run of the engine model: summary counters equal the number of events per kind; every planned task appears exactly once, as an action event or as an error (a failed file is never missing); a dry run reports exactly its plan; constants regenerated from source show logs go to stderr and errors are emitted as JSON events. Tied to the code by parsing every stdout line of real --json runs with a strict parser and comparing events/counters with the model and with the observable before/after diff of the destination. Partial: path-for-path truthfulness of create/delete/skip events against the diff is checked by the oracle and the K stream; its Lean theorem is part of the C01 development.",
+  "design_ref": "DESIGN.md §6 C19",
+  "note": "Trusted: Lean kernel; model + engine stream; regex anchors of the translator for the log sink / error events.",
+  "technique": "Lean 4 theorem (bookkeeping invariant) + differential correspondence of the JSON stream",
+ },
 }
